@@ -151,6 +151,10 @@ type rig struct {
 	dgSessDead [2]bool            // the receiving session was closed before the frame arrived
 	// bogusAccept describes the first accepted stream that the peer never opened
 	bogusAccept string
+	// racing: operations of one step are being started (no quiescence between them); dgRaced: datagrams that arrived
+	// during such a step for a stream or session whose close was started in it - they may or may not become readable
+	racing  bool
+	dgRaced [2]map[uint32][][]byte
 }
 
 // modelOpen is the number of open streams a side must be counting, derived from the operations and the tap.
@@ -228,6 +232,7 @@ func newRig(t *testing.T, cfg rigCfg) (*rig, error) {
 	for i := 0; i < 2; i++ {
 		r.dgQ[i] = map[uint32][][]byte{}
 		r.dgDead[i] = map[uint32]bool{}
+		r.dgRaced[i] = map[uint32][][]byte{}
 	}
 	n := cfg.NumConn
 	if n < 1 {
@@ -542,11 +547,17 @@ func (r *rig) dgArrivals(li int, d vk.Dir, before, after int64) {
 			continue
 		}
 		if r.dgSessDead[recvSide] {
+			if r.racing && f.Closing == closingNothing {
+				r.dgRaced[recvSide][f.StreamID] = append(r.dgRaced[recvSide][f.StreamID], f.Payload)
+			}
 			continue
 		}
 		if r.dgDead[recvSide][f.StreamID] {
 			if f.Closing == closingNothing {
 				r.dgLost++
+				if r.racing {
+					r.dgRaced[recvSide][f.StreamID] = append(r.dgRaced[recvSide][f.StreamID], f.Payload)
+				}
 			}
 			continue
 		}
@@ -649,9 +660,22 @@ func (r *rig) onRead(s *rigStream, res ioRes) error {
 				}
 			}
 			if qi < 0 {
-				return vk.Violatef("stream %d side %d: read returned a datagram that had not arrived (or was already read)", s.id, s.side)
+				// a datagram that arrived in the very step in which this side's close was started may have made it
+				raced := r.dgRaced[s.side][s.id]
+				ri := -1
+				for i, m := range raced {
+					if bytes.Equal(m, d) {
+						ri = i
+						break
+					}
+				}
+				if ri < 0 {
+					return vk.Violatef("stream %d side %d: read returned a datagram that had not arrived (or was already read)", s.id, s.side)
+				}
+				r.dgRaced[s.side][s.id] = append(append([][]byte(nil), raced[:ri]...), raced[ri+1:]...)
+			} else {
+				r.dgQ[s.side][s.id] = append(append([][]byte(nil), q[:qi]...), q[qi+1:]...)
 			}
-			r.dgQ[s.side][s.id] = append(append([][]byte(nil), q[:qi]...), q[qi+1:]...)
 		} else {
 			tag := rigTag(s.id, 1-s.side)
 			for i := 0; i < res.n; i++ {
@@ -943,11 +967,16 @@ func (r *rig) step(op rigOp) error {
 	if err := r.start(op); err != nil {
 		return err
 	}
+	// operations started in the same step race with one another: whether a datagram delivered now reaches its stream
+	// before a close started in this step takes effect is the scheduler's choice, both outcomes are legitimate
+	r.racing = len(op.Par) > 0
 	for _, p := range op.Par {
 		if err := r.start(p); err != nil {
+			r.racing = false
 			return err
 		}
 	}
+	r.racing = false
 	synctest.Wait()
 	r.nOpsDone++
 	return r.poll()
